@@ -1500,3 +1500,20 @@ package gedcom
 //@   ghost full bool = false
 //@   oncall NewSurroundingSimilarity#2 do full = true
 //@   ensures neutral-without-pairs: implies(full && nPairs == 0, result != nil && result.ParentsSimilarity == 0.5)
+
+// C13 (b), one instance of "views reflect every edit": after the husband (or
+// wife) of a family has been removed, the cached view says so - it is marked
+// as computed and empty, so a later Husband() cannot hand back a stale node
+// from any other cache.
+//@ func FamilyNode.SetHusband
+//@   props C13
+//@   ghost removed bool = false
+//@   opaque FamilyNode.Husband, HusbandNode.Individual, IndividualNode.*, DeleteNodesWithTag, NewNode, simpleDocumentNode.*, SimpleNode.*, FamilyNode.SetHusbandPointer, IsNil
+//@   oncall DeleteNodesWithTag do removed = true
+//@   ensures view-cleared: implies(removed, node.cachedHusband && node.husband == nil)
+//@ func FamilyNode.SetWife
+//@   props C13
+//@   ghost removed bool = false
+//@   opaque FamilyNode.Wife, WifeNode.Individual, IndividualNode.*, DeleteNodesWithTag, NewNode, simpleDocumentNode.*, SimpleNode.*, FamilyNode.SetWifePointer, IsNil
+//@   oncall DeleteNodesWithTag do removed = true
+//@   ensures view-cleared: implies(removed, node.cachedWife && node.wife == nil)
